@@ -189,7 +189,7 @@ def tlc_trace(module, trace_path, tag, timeout=3000, cfgfile=None, strict=False)
     raise ToolError("TLC failed on %s (%s):\n%s" % (trace_path, module, out[-3000:]))
 
 
-RE_COV_ACTION = re.compile(r"^<(\w+) line \d+, col \d+ to line \d+, col \d+ of module (\w+)>: (\d+):(\d+)", re.M)
+RE_COV_ACTION = re.compile(r"^<(\w+) line \d+, col \d+ to line \d+, col \d+ of module (\w+)(?: \([\d ]+\))?>: (\d+):(\d+)", re.M)
 
 
 def tlc_mc(module, cfgfile, tag, workers=8, timeout=3600, extra=(), heap="-Xmx12g", coverage=True):
@@ -221,6 +221,20 @@ def tlc_mc(module, cfgfile, tag, workers=8, timeout=3600, extra=(), heap="-Xmx12
     if not ok and not violated:
         raise ToolError("TLC error in %s:\n%s" % (cfgfile, out[-3000:]))
     return dict(ok=ok, states=states, distinct=distinct, out=out, actions=actions, wall=time.time() - t0)
+
+
+def make_cfg(base, name, subst):
+    """A variant of spec/<base>.cfg with some `Key = value` / `Key <- Def` lines replaced; written under work/cfg."""
+    text = open(os.path.join(SPEC, base + ".cfg")).read()
+    for k, v in subst.items():
+        text, n = re.subn(r"(?m)^(\s*)%s\s*(=|<-).*$" % re.escape(k), lambda m: "%s%s %s" % (m.group(1), k, v), text)
+        if n != 1:
+            raise ToolError("make_cfg: key %s not found once in %s.cfg" % (k, base))
+    d = os.path.join(WORK, "cfg")
+    os.makedirs(d, exist_ok=True)
+    path = os.path.join(d, name + ".cfg")
+    open(path, "w").write(text)
+    return path
 
 
 def run_parallel(fn, items, workers):
